@@ -10,6 +10,7 @@ import (
 	"gverif/engine/constx"
 	"gverif/engine/decode"
 	"gverif/engine/dspx"
+	"gverif/engine/factkind"
 	"gverif/engine/factx"
 	"gverif/engine/flagx"
 	"gverif/engine/globalx"
@@ -49,11 +50,11 @@ var canaries = map[string][]canary{}
 // after the property's own analysis.
 var propertyCanaries = map[string][]string{
 	"C01": {"STRIDE.index", "STRIDE.len", "STRIDE.start", "STRIDE.rowoffset", "STRIDE.extent", "FLAG.trans", "TWIN.generated", "ASM.units"},
-	"C02": {"ARGS.order", "ARGS.lencheck", "ARGS.query", "LOOPIDX.unused", "OKFLOW.report", "STRIDE.vecinc", "WORKSIZE.min", "WORKSIZE.querylen"},
-	"C03": {"ARGS.order", "ARGS.lencheck", "ARGS.query", "LOOPIDX.unused", "OKFLOW.report", "STRIDE.workld", "STRIDE.worknext", "WORKSIZE.min"},
+	"C02": {"FACTKIND.pair", "ARGS.order", "ARGS.lencheck", "ARGS.query", "LOOPIDX.unused", "OKFLOW.report", "STRIDE.vecinc", "WORKSIZE.min", "WORKSIZE.querylen"},
+	"C03": {"FACTKIND.pair", "LOOPIDX.origin", "ARGS.order", "ARGS.lencheck", "ARGS.query", "LOOPIDX.unused", "OKFLOW.report", "STRIDE.workld", "STRIDE.worknext", "WORKSIZE.min"},
 	"C04": {"STRIDE.contig", "TWIN.bounds", "NILRECV"},
 	"C05": {"OVERLAP.guard", "MODSET.mat", "OVERLAP.symmetric", "TWIN.shadow"},
-	"C06": {"OKFLOW.use", "OKFLOW.cond", "OKFLOW.report", "FACT.normorder", "FACT.state", "FACT.condunit", "NILRECV"},
+	"C06": {"FACTKIND.pair", "OKFLOW.use", "OKFLOW.cond", "OKFLOW.report", "FACT.normorder", "FACT.state", "FACT.condunit", "NILRECV"},
 	"C07": {"ARGS.arms", "ARGS.strict", "WORKSIZE.querylen", "ARGS.order", "ARGS.lencheck", "ARGS.query", "MAT.order", "ASM.window", "ASM.tail", "STRIDE.len"},
 	"C08": {"PARAMUSE.read", "ASM.window", "ASM.tail", "ASM.units", "STRIDE.extent", "SIB.guards"},
 	"C09": {"GLOBAL.write", "GOPROTO.capture", "GOPROTO.lockpair", "GOPROTO.sibling", "POOL.uaf"},
@@ -77,6 +78,9 @@ func init() {
 		{"GRAPHINV.panicorder", "graph/simple/directed.go", "g.nodes[n.ID()] = n\n\tg.nodeIDs.Use(n.ID())", "g.nodes[n.ID()] = n\n\tif n.ID() < 0 {\n\t\tpanic(\"simple: negative ID\")\n\t}\n\tg.nodeIDs.Use(n.ID())", func() *core.Result { return graphinv.RunOrder(def) }},
 		{"GRAPHINV.absent", "graph/simple/dense_directed_matrix.go", "!isSame(g.mat.At(i, int(id)), g.absent)", "g.mat.At(i, int(id)) != g.absent", func() *core.Result { return graphinv.RunOrder(def) }},
 		{"GRAPHINV.iterreset", "graph/multi/multi.go", "\te.WeightedLines.Reset()\n\treturn w", "\treturn w", func() *core.Result { return graphinv.RunOrder(def) }},
+		{"FACTKIND.pair", "lapack/gonum/dggsvp3.go", "impl.Dormr2(blas.Right, blas.Trans, m, n, l, b, ldb, tau, a, lda, work)", "impl.Dorm2r(blas.Right, blas.Trans, m, n, l, b, ldb, tau, a, lda, work)", func() *core.Result { return factkind.Run(def, "./lapack/gonum") }},
+		{"FACTKIND.pair", "mat/qr.go", "lapack64.Ormqr(blas.Right, blas.NoTrans, qr.qr.mat, qr.tau, c, work, len(work))", "lapack64.Ormlq(blas.Right, blas.NoTrans, qr.qr.mat, qr.tau, c, work, len(work))", func() *core.Result { return factkind.Run(def, "./mat") }},
+		{"LOOPIDX.origin", "lapack/gonum/dggsvp3.go", "r := a[i*lda : i*lda+i]\n\t\tfor j := range r {\n\t\t\tr[j] = 0", "r := a[i*lda : i*lda+i]\n\t\tfor j := range r {\n\t\t\ta[j] = 0", func() *core.Result { return loopidx.Run(def, core.Pkgs("./lapack/gonum")) }},
 		{"WORKSIZE.min", "lapack/gonum/dgels.go", "wsize := max(1, mn+max(mn, nrhs)*nb)", "wsize := max(1, mn+mn*nb)", wsz},
 		{"WORKSIZE.querylen", "lapack/gonum/dormqr.go", "case lwork < max(1, nw) && lwork != -1:\n\t\tpanic(badLWork)", "case lwork < max(1, nw) && lwork != -1:\n\t\tpanic(badLWork)\n\tcase len(tau) != k:\n\t\tpanic(badLenTau)", wsz},
 		{"WORKSIZE.min", "lapack/gonum/dsyev.go", "lworkopt := max(1, (nb+2)*n)", "lworkopt := max(1, (nb+1)*n)", wsz},
